@@ -56,11 +56,16 @@ def run(v, tier):
         bs = list(bs)[:40]
         for cut in range(1, len(bs)):
             mal.append({'cmd': 'deser', 'phase': ph, 'bytes': bs[:cut], 'claims': inputs[(ph, tuple(keys[0][1]))] if False else (gen.model_claims() if ph == 'proof' else [])})
-        for b in (0, 1, 31, 200):
+        # zero, reserved and unknown bytes; valid opcodes with the high bit set (only 137 = CleanMetaVar is one)
+        for b in (0, 1, 31, 200, 255, 128 + rng.choice([2, 3, 4, 5, 6, 12, 13, 21, 27, 28, 30]), 128 + rng.randrange(10, 31)):
             k = rng.randrange(len(bs) + 1)
             mal.append({'cmd': 'deser', 'phase': ph, 'bytes': bs[:k] + [b] + bs[k:], 'claims': gen.model_claims() if ph == 'proof' else []})
-    if quick and len(mal) > 4000:
-        mal = rng.sample(mal, 4000)
+        # ... and an opcode of the stream itself replaced by its high-bit variant
+        k = rng.randrange(len(bs))
+        if bs[k] != 9:
+            mal.append({'cmd': 'deser', 'phase': ph, 'bytes': bs[:k] + [bs[k] | 128] + bs[k + 1:], 'claims': gen.model_claims() if ph == 'proof' else []})
+    if quick and len(mal) > 5000:
+        mal = rng.sample(mal, 5000)
     allreq = reqs + mal
     import lem
     res = lem.run_applications(allreq)
